@@ -534,6 +534,9 @@ def evaluate_batch(cases, seed):
         if len(cases) > 1:
             h = len(cases) // 2
             return evaluate_batch(cases[:h], seed) + evaluate_batch(cases[h:], seed)
+        if "alidation error" in out.message:
+            # selene validates the (lowered) package before building: ill-typed wiring, not a toolchain gap
+            return [("invalid_hugr", out.message[:1500], None)]
         return [("__unsupported__", out.message[:300], None)]
     if out.kind in ("rejected", "crash", "invalid", "panic"):
         if len(cases) > 1:
@@ -1041,7 +1044,7 @@ SPEC = harness.Spec(
     shards={"quick": 8, "thorough": 16},
     budget_s={"quick": 90, "thorough": 840},
     params={"quick": {"n": 150}, "thorough": {"n": 2400}},
-    min_nontrivial=150,
+    min_nontrivial=50,
 )
 
 if __name__ == "__main__":
